@@ -66,7 +66,7 @@ func (f Child) remove(value any) (out any, changed bool) {
 	return
 }
 
-func (f Child) locate(pp Expr, data any, rest Expr, max int) (locs []Expr) {
+func (f Child) locate(pp Expr, data, root any, rest Expr, max int) (locs []Expr) {
 	var (
 		v   any
 		has bool
@@ -82,7 +82,7 @@ func (f Child) locate(pp Expr, data any, rest Expr, max int) (locs []Expr) {
 		v, has = reflectGetChild(td, string(f))
 	}
 	if has {
-		locs = locateNthChildHas(pp, f, v, rest, max)
+		locs = locateNthChildHas(pp, f, v, root, rest, max)
 	}
 	return
 }
